@@ -222,3 +222,15 @@ for FullSync<'static, ItemType, BUFFER_SIZE, MAX_STREAMS> {
         self.streams_manager.name()
     }
 }
+
+
+/// verification hook (cargo feature `verif`): access to the streams manager, so harnesses may tell a single stream to end
+#[cfg(feature = "verif")]
+impl<'a, ItemType:          'a + Send + Sync + Debug + Default,
+         const BUFFER_SIZE: usize,
+         const MAX_STREAMS: usize>
+FullSync<'a, ItemType, BUFFER_SIZE, MAX_STREAMS> {
+    pub fn verif_streams_manager(&self) -> &StreamsManagerBase<MAX_STREAMS> {
+        &self.streams_manager
+    }
+}
